@@ -112,6 +112,7 @@ func Tripped() bool {
 // gcAt: in plain mode the k-th instrumented statement after the last
 // ResetMeter runs a garbage collection (and lets the finalizer goroutine run):
 // the "GC / finalizer at an arbitrary point inside a call" fault.
+var TripDebug bool
 var gcAt uint64
 var GCsInjected uint64
 
@@ -158,6 +159,9 @@ func Yield(site int) {
 		injectGC()
 	}
 	if caps[i] != 0 && meters[i] > caps[i] && (meters[i]-caps[i])%4096 == 1 {
+		if TripDebug {
+			println("VERIF-TRIP task", cur, "meter", meters[i], "cap", caps[i], "site", site, "root", rootOf[cur&(maxIDs-1)])
+		}
 		tripped = true
 		panic(WorkCapTrip{meters[i]})
 	}
@@ -316,7 +320,7 @@ func SchedStart(c SchedConfig) {
 	starve, starveAt, starved = c.Starve-1, c.StarveAt, false
 	Switches, Decisions, traceHash = 0, 0, 14695981039346656037
 	ProbeSwitchInCrit, ProbeTwoInCrit = 0, 0
-	Spawned, LeftWaiting, spinStreak = 0, 0, 0
+	Spawned, LeftWaiting, spinStreak, selectPollers = 0, 0, 0, 0
 	traceOn = c.Trace
 	Trace = Trace[:0]
 	cur = mainTask
@@ -450,6 +454,11 @@ func waitBaton(me int) {
 			panic("verifrt: baton holder is blocked outside the simulated scheduler (unsupported blocking primitive in the code under test)")
 		}
 	}
+	if parkYield {
+		// the baton came from a task that is about to block in the runtime: give it the processor once
+		parkYield = false
+		runtime.Gosched()
+	}
 }
 
 //go:norace
@@ -511,7 +520,7 @@ func TaskEnd(id int) {
 	to := pickOther(id, d+1)
 	if to < 0 {
 		if nAliveBase > 0 {
-			panic("verifrt: deadlock - the remaining callers are parked on channels nobody will serve")
+			panic(Deadlock{Msg: deadlockInfo("verifrt: deadlock - the remaining callers are parked on channels nobody will serve"), PollingSelect: selectPollers > 0})
 		}
 		to = mainTask
 	}
